@@ -147,7 +147,7 @@ fn main() {
             &opts,
             "fault_enumeration",
             "c15",
-            opts.cases(300, 3000),
+            opts.cases(600, 5000),
             jobs,
             "one evaluation = one run of the real rg binary on a generated tree (2-9 text files of 0-900 lines in up to 4 directories, optionally a dangling symlink) in one mode (standard, count, files-with-matches, quiet, --files, JSON, context), single-threaded (-j1 --sort path) or multi-threaded under a seeded schedule, with one fault plan: none (reference); open() of a file failing with EACCES or ENOENT; opendir() failing; read() failing with EIO at read index 0-2 or answered EINTR, under read fragmentation; stdout accepting k bytes then EPIPE, for every k when the output is short (<=96 bytes quick, <=4096 thorough) else all small k, line boundaries +-1 and seeded k; invalid regex/glob/encoding/type/flag. Oracle: exit status from the model (matched, errored, quiet), a stderr line naming each faulted path, other files' results byte-identical, read-fault results a prefix, EPIPE => status 0, empty stderr, exactly the first k bytes, at most `workers` files opened afterwards. distinct_nontrivial = distinct schedule traces (multi-threaded workloads with a preemption) plus distinct single-threaded workloads.",
             vec![
@@ -161,7 +161,7 @@ fn main() {
             &opts,
             "exploration",
             "c08",
-            opts.cases(600, 8000),
+            opts.cases(1500, 12000),
             jobs,
             "one evaluation = one run of the real rg binary. Per workload (tree of 2-25 text files from empty to ~200 KiB in nested directories, pattern foo, one of the modes heading / no-heading / context+heading / count / files-with-matches / files-without-match / JSON / --files / quiet / --sort path, 2-16 threads, in 1 of 5 workloads an injected EACCES on one file so that stderr is not empty): one single-threaded reference run, then 5 (quick) / 24 (thorough) runs with -jN whose worker threads are serialised by the preloaded scheduler under a fresh seed and strategy (random, PCT, sticky, round-robin) at every hooked yield point (walker deque/counter/flag operations, before each file's search, before each buffer print). Oracle: stdout parses into per-file blocks (each file contiguous, separators exactly between blocks) that are a permutation of the reference's blocks, byte-identical (JSON/--stats elapsed times masked); exit status equal; stderr equal as a multiset of lines; --sort path: byte-identical. distinct_nontrivial = distinct schedule traces with at least one preemption.",
             vec![
@@ -175,7 +175,7 @@ fn main() {
             &opts,
             "exploration",
             "c14",
-            opts.cases(4000, 60000),
+            opts.cases(8000, 80000),
             jobs,
             "CLI leg: one evaluation = one run of the real rg binary (-j1 --sort path, pattern foo) over a generated tree whose files carry 1-2 NUL bytes at planned places (first byte, last byte, inside / just after a matching line, around 64 KiB, late, anywhere; some files stay text), named explicitly or reached by traversal, with default / --binary / --text, --mmap / --no-mmap, optionally under syscall-level read fragmentation, in line, count, list, context and multi-line modes. Oracle: no NUL byte on stdout unless --text; in line mode per file: --text and text files print exactly the model's lines; a NUL-bearing file prints a NUL-free prefix of its matching lines plus at most one notice, which comes last; explicit / --binary: silent only if nothing matches; traversed default: a proper non-empty prefix must be followed by the warning. distinct_nontrivial = distinct (workload, stdout) outcomes with NUL-bearing files plus distinct library-leg cases.",
             vec![
@@ -188,7 +188,7 @@ fn main() {
             &opts,
             "exploration",
             "c17",
-            opts.cases(600, 8000),
+            opts.cases(1500, 12000),
             jobs,
             "CLI leg: per workload a generated text (1-30 lines, 1 in 8 400-1600 lines; ASCII, BMP, astral) encoded as UTF-16LE/BE with BOM or by -E label, optionally with an odd trailing byte, searched by the real rg (line or -U multi-line pattern, --no-mmap mostly) under syscall fault plans: none, read fragmentation, EINTR at each of the first six read indices, and 10 (quick) / 40 (thorough) seeded (EINTR index < 60, fragmentation seed) pairs. Oracle: stdout, exit status and empty stderr identical to rg on the UTF-8 equivalent at the same path.",
             vec!["the CLI leg covers UTF-16 only (decoded by hand for the reference); other encodings are covered by the library leg".into()],
@@ -198,7 +198,7 @@ fn main() {
             &opts,
             "fault_enumeration",
             "c18",
-            opts.cases(1200, 30000),
+            opts.cases(3000, 40000),
             jobs,
             "one evaluation = one run of the real rg binary (-j1 --sort path) over 1-5 files that reach it through a scripted child process: --pre <stub>, --pre with --pre-glob selecting a subset, -z with the stub installed first in PATH as gzip/bzip2/xz, -z with the real gzip/bzip2/xz on valid and truncated archives, a missing and a non-executable --pre command. Each file's child has a fate drawn from the seed: clean; noise on stderr with exit 0; 8 MiB stderr flood around its output; exit 1/2/127/255 after all output; the same before any output; SIGABRT after output; or output followed by 1.6 MB of filler so that ripgrep's early stop (-m1, -l, -q) certainly closes the pipe while the child is blocked in write (plain, with stderr noise, or ignoring SIGPIPE and exiting 1). Three runs per workload: a plain rg over a shadow tree holding exactly the bytes each child writes (reference), and the scripted run twice (outcomes must be identical). Oracle: stdout == reference; files whose command could not start or failed after its output was consumed are named on stderr and the status is 2; early-stopped and merely noisy children produce no diagnostic; files not selected by --pre-glob / not compressed are searched directly; the run ends (90 s cap) under stderr floods. distinct_nontrivial = distinct (stdout, stderr) outcomes over workloads.",
             vec![
